@@ -70,4 +70,64 @@ def callbackGate (cfg : CbCfg) (ck : CookieIn) (q : CbQuery) : CbOutcome :=
     else if cfg.issSupported && (q.iss == "" || q.iss != cfg.issuer) then .unauthorized
     else .redeem q.code c.verifier c.redirectUri c
 
+
+/-! ## ID-token acceptance (pkg/openid/tokens.go: NewTokens, IDToken.Validate; jwx v2 semantics as in DESIGN Appendix C) -/
+
+/-- how the token's signature relates to the provider's currently published key set (after the configured algorithm was filled in for keys
+    without `alg`): the only verifying case is a signature made with the private half of a published key under THAT KEY'S algorithm -/
+inductive Sig where
+  | publishedKey        -- verifies under a published key with the key's own algorithm
+  | otherKey            -- well-formed signature by a key that is not published
+  | algNone             -- unsecured JWT (alg=none)
+  | symmetricWithPublic -- HS* keyed with public key material
+  | malformed           -- signature bytes do not verify / token not a JWS
+  deriving Repr, DecidableEq
+
+structure IdToken where
+  sig : Sig
+  iss : Option String := none
+  aud : List String := []
+  exp : Option Int := none      -- seconds
+  iat : Option Int := none
+  nbf : Option Int := none
+  nonce : Option String := none
+  sub : Option String := none
+  sid : Option String := none
+  acr : Option String := none
+  deriving Repr, DecidableEq
+
+structure OidcCfg where
+  issuer : String
+  clientId : String
+  trusted : List String := []      -- additional trusted audiences (the client id is always trusted)
+  sidRequired : Bool := false
+  acrConfigured : Bool := false    -- openid.acr-values non-empty
+  skew : Int := 5
+  deriving Repr
+
+def acrTranslate' (s : String) : String :=
+  if s = "Level3" then "idporten-loa-substantial" else if s = "Level4" then "idporten-loa-high" else s
+
+/-- pkg/openid/acr.Validate -/
+def acrAccepts (expected actual : String) : Bool :=
+  let e := acrTranslate' expected
+  if e = "idporten-loa-substantial" then actual = "idporten-loa-substantial" || actual = "idporten-loa-high"
+  else if e = "idporten-loa-high" then actual = "idporten-loa-high"
+  else e = actual
+
+/-- `none` = no id_token member in the token response -/
+def acceptIdToken (cfg : OidcCfg) (cookieNonce cookieAcr : String) (now : Int) (t : Option IdToken) : Bool :=
+  match t with
+  | none => false
+  | some t =>
+    t.sig = .publishedKey &&
+    (!cfg.acrConfigured || (t.acr.isSome && (cookieAcr = "" || acrAccepts cookieAcr (t.acr.getD "")))) &&
+    t.iss = some cfg.issuer && t.sub.isSome && !t.aud.isEmpty && t.aud.contains cfg.clientId &&
+    (match t.exp with | some e => decide (now < e + cfg.skew) | none => false) &&
+    (match t.iat with | some i => decide (i - cfg.skew ≤ now) | none => false) &&
+    (match t.nbf with | some n => decide (n - cfg.skew ≤ now) | none => true) &&
+    t.nonce = some cookieNonce &&
+    (!cfg.sidRequired || t.sid.isSome) &&
+    (decide (t.aud.length ≤ 1) || t.aud.all fun a => a = cfg.clientId || cfg.trusted.contains a)
+
 end Ww.Model
